@@ -82,6 +82,10 @@ def step (file : Option Bytes) (ws : List String) : Option Bytes × String :=
   | "md5cnt" :: a :: b :: cs => (file, match allArgs cs with
       | some bs => chunks bs (some (UInt32.ofNat a.toNat!, UInt32.ofNat b.toNat!))
       | none => "bad-hex")
+  | ["md5len", a, b, n] =>
+      -- the model's length bookkeeping of one MD5Update of `n` bytes (no data needed)
+      let cnt := countUpdate (UInt32.ofNat a.toNat!) (UInt32.ofNat b.toNat!) (n.toNat! % 2 ^ 32)
+      (file, s!"cnt {cnt.1.toNat} {cnt.2.toNat} idx {bufIndex cnt.1}")
   | ["mkfile", size, seed] => (some (lcg size.toNat! (UInt32.ofNat seed.toNat!)), "ok")
   | "md5file" :: off :: nb :: sched => (file, match file with
       | none => "no-file"
